@@ -57,6 +57,9 @@ impl Ev {
         ensures r == Ok::<Value, RtErr>(old(self).rhs@), final(self).rhs_evals@ == old(self).rhs_evals@ + 1, final(self).lhs_evals@ == old(self).lhs_evals@, final(self).lhs@ == old(self).lhs@, final(self).rhs@ == old(self).rhs@
     { unimplemented!() }
 }
+// the operator applied to two evaluated operands (decided by binary_dispatch)
+#[verifier::external_body]
+fn apply_operator(l: Value, r: Value) -> (res: Result<Value, RtErr>) { unimplemented!() }
 pub open spec fn truthy(v: Value) -> bool { v == Value::Bool(true) }
 pub open spec fn boolish(v: Value) -> bool { ty(v) == Ty::Bool || ty(v) == Ty::Null }
 '''
@@ -120,6 +123,15 @@ UNIT = VUnit(
                        "old(me).lhs@ != Value::Bool(true) && !boolish(old(me).rhs@) ==> res == Err::<Value, RtErr>(RtErr::TypeMismatch)"],
               rewrites=[Rw("R11b", r"self\.eval_expr\(lhs\)", "me.eval_lhs()"), Rw("R11b", r"self\.eval_expr\(rhs\)", "me.eval_rhs()"), ERR],
               real_name="Runtime::eval_expr (BinaryOp::Or arm)"),
+        # every other binary operator: both operands are evaluated, exactly once each, the left one first, before the operator is applied
+        Block("binary_operand_order", within="eval_expr", impl="impl Runtime",
+              anchor=r"_ => (?=\{\s*let l = self\.eval_expr\(lhs\)\?;)",
+              sig="fn binary_operand_order(me: &mut Ev) -> (res: Result<Value, RtErr>)",
+              requires=["old(me).lhs_evals@ == 0 && old(me).rhs_evals@ == 0"],
+              ensures=["final(me).lhs_evals@ == 1 && final(me).rhs_evals@ == 1"],
+              rewrites=[Rw("R11b", r"self\.eval_expr\(lhs\)", "me.eval_lhs()", min_matches=1), Rw("R11b", r"self\.eval_expr\(rhs\)", "me.eval_rhs()", min_matches=1),
+                        Rw("R11", r"match \(l, r\) \{.*\}", "apply_operator(l, r)", min_matches=1)],
+              real_name="Runtime::eval_expr (Expr::Binary: operand evaluation order)"),
         Block("unary_dispatch", within="eval_expr", impl="impl Runtime",
               anchor=r"let v = self\.eval_expr\(expr\)\?;\s*match \(op, v\) ",
               sig="fn unary_dispatch(op: &UnaryOp, v: Value) -> (res: Result<Value, RtErr>)",
